@@ -63,6 +63,9 @@ pub struct RunReport {
     pub fault_free: bool,
     /// E2: the schedule actually taken, for turning a seeded case into an explicit one
     pub explicit_choices: Option<Vec<u32>>,
+    /// E2/E3: identity of the interleaving (hash over every (runnable set, choice) pair), set
+    /// when more than one task was ever runnable
+    pub schedule_id: Option<u64>,
 }
 
 impl RunReport {
@@ -296,6 +299,11 @@ pub fn run_check(ctx: &Ctx, property: &str, level: &str, tier: &str, seed: u64, 
     let sample: Option<Vec<usize>> = std::env::var("VERIF_CASES").ok().and_then(|s| s.parse::<usize>().ok()).filter(|n| *n > 0 && *n < full_total).map(|n| {
         (0..n).map(|k| k * full_total / n).collect()
     });
+    // VERIF_ONLY=i,j,...: exactly these case indices (debugging aid)
+    let sample = match std::env::var("VERIF_ONLY") {
+        Ok(list) => Some(list.split(',').filter_map(|t| t.trim().parse::<usize>().ok()).collect::<Vec<_>>()),
+        Err(_) => sample,
+    };
     let total = sample.as_ref().map(|s| s.len()).unwrap_or(full_total);
     let next = AtomicUsize::new(0);
     let slots: Mutex<Vec<Slot>> = Mutex::new(Vec::with_capacity(total));
@@ -412,6 +420,7 @@ pub fn run_check(ctx: &Ctx, property: &str, level: &str, tier: &str, seed: u64, 
     let mut faults: BTreeMap<String, (u64, u64, u64)> = BTreeMap::new(); // configured runs, fired runs, fired total
     let mut probes: BTreeMap<String, u64> = BTreeMap::new();
     let mut shapes: BTreeSet<u64> = BTreeSet::new();
+    let mut schedules: BTreeSet<u64> = BTreeSet::new();
     let mut procs = 0u64;
     let mut sched_steps = 0u64;
     let mut syscalls = 0u64;
@@ -443,6 +452,9 @@ pub fn run_check(ctx: &Ctx, property: &str, level: &str, tier: &str, seed: u64, 
         }
         if r.nontrivial {
             shapes.insert(r.shape);
+        }
+        if let Some(id) = r.schedule_id {
+            schedules.insert(id);
         }
         procs += r.procs;
         sched_steps += r.sched_steps;
@@ -565,12 +577,15 @@ pub fn run_check(ctx: &Ctx, property: &str, level: &str, tier: &str, seed: u64, 
             "simulated_processes_per_hour": per_hour(procs),
             "simulated_time": "not applicable: the code under test has no clock, timer or deadline; coverage is in logical steps",
             "logical_steps": {"scheduler_decisions": sched_steps, "simulated_syscalls": syscalls},
+            "distinct_interleavings": schedules.len(),
+            "distinct_interleavings_measure": "distinct hashes over the whole sequence of (runnable task set, chosen task) pairs of a run, counted over runs in which at least one decision had more than one runnable task (engines E2 and E3)",
             "fault_kinds": Value::Object(faults_json),
             "runs_fault_free": fault_free,
             "runs_with_fault_configured": faulty,
             "reach_probes": probes,
             "required_probes_stuck_at_zero": stuck,
             "determinism_reexecutions_equal": reexec.load(Ordering::Relaxed),
+            "watchdog_timeouts_not_confirmed_on_rerun": crate::exec::SPURIOUS_TIMEOUTS.load(Ordering::Relaxed),
             "traces_validated_against_impl": cross,
             "components": plan.components(),
             "known_findings_observed": known_hit.iter().map(|(k, (w, _, n))| json!({"key": k, "what": w, "count": n})).collect::<Vec<_>>(),
@@ -585,7 +600,12 @@ pub fn run_check(ctx: &Ctx, property: &str, level: &str, tier: &str, seed: u64, 
     let ev_dir = root.join("evidence");
     std::fs::create_dir_all(&ev_dir).expect("create evidence dir");
     let ev_path = ev_dir.join(format!("{property}.json"));
-    if sample.is_none() {
+    if std::env::var("VERIF_SHOW").is_ok() {
+        for s in &slots {
+            println!("case {}: {}", s.idx, serde_json::to_string(&plan.case(s.idx)).unwrap());
+        }
+    }
+    if sample.is_none() && full_total == total {
         std::fs::write(&ev_path, serde_json::to_vec_pretty(&evidence).unwrap()).expect("write evidence");
     } else {
         println!("(sampled self-test run: evidence file not rewritten)");
